@@ -89,6 +89,26 @@ DESC = {
     "C20d": "fee-less transfers skipped before grouping by year (a year holding only such transfers loses its sheet and summary line)",
     "C20a": "closing-balance row kept in generator state keyed by year and shared across assets (later-starting asset references another asset's year)",
     "C20b": "transactions grouped into year sheets by UTC year (non-UTC timestamp near New Year)",
+    "C01e": "same-timestamp transactions re-sorted by internal id compared as a string (row 10 before row 9)",
+    "C02e": "lots acquired after the to-date not loaded into the accounting engine (a disposal before the to-date keeps different lots under LIFO/HIFO; result depends on -t)",
+    "C03e": "parser: crypto fee of an earn-typed IN row is not split into a FEE disposal (fee never taxed; parser path only)",
+    "C04e": "parser: the re-created acquisition of a crypto-fee IN row drops the supplied fiat_in_with_fee (parser path only)",
+    "C05e": "parser: the re-created acquisition of a crypto-fee IN row loses its sub-second part (holding period at the threshold)",
+    "C06e": "to-date applied to the yearly summary per year instead of per day (three cooperating hunks)",
+    "C07e": "parser: crypto fee of an earning IN row not modelled as a fee out-flow (balances off by the fee; parser path only)",
+    "C08e": "self-transfer: read-both-then-write-both in the balance replay (received side overwrites the debit)",
+    "C09e": "sold % loop fused into the unfiltered running-sum loop (open-position cost basis ignores the to-date)",
+    "C10e": "duplicate() no longer forces a re-sort + filtered views created after the yearly summary (stale sort state; two cooperating edits)",
+    "C11e": "parser: artificial fee disposal loses the sub-second part of its timestamp",
+    "C12e": "-a selection rewritten as a filter over the configured assets (unknown asset: empty run instead of an error)",
+    "C13e": "out-flow running sums built from crypto_taxable_amount / crypto_deduction (FEE-typed outs shift amount into the fee column)",
+    "C14e": "tax reports treat every row of an earn-typed sheet as an earning (STAKING-typed OUT rows lose their lot columns)",
+    "C15e": "open positions drop lots whose remaining cost rounds to 0.00 (weights and totals no longer over all unsold lots)",
+    "C16e": "AVL key pads the internal id on the wrong side (row 10 sorts before row 9 among equal-instant lots)",
+    "C17e": "LOFO breaks equal-price ties by row instead of acquisition time (two cooperating sites)",
+    "C18e": "remote $ref (json-schema.org) in the JSON configuration schema (resolved over the network for deprecated JSON configs with headers)",
+    "C19e": "Summary link rows keyed by the UTC year of the event (link points at another year's block under non-UTC offsets)",
+    "C20e": "jp transfer row decided by the yen value of the fee instead of the fee (zero-price or tiny fee: row dropped)",
 }
 
 
